@@ -46,13 +46,16 @@ impl Check for C04 {
     }
     fn strategy(&self, _tier: Tier) -> BoxedStrategy<MCase> {
         let len = prop_oneof![70 => 2usize..=14, 30 => 15usize..=64];
-        (c04_palette(), len, gen::any_cfg(), needle_mode4())
-            .prop_flat_map(|(pal, n, cfg, mode)| (Just(pal), proptest::collection::vec(any::<u16>(), n..=n), Just(cfg), Just(mode)))
-            .prop_map(|(pal, sels, mut cfg, mode)| {
+        // 0.5% of the haystacks sit behind 65534..70000 filler characters no needle character matches
+        let far = prop_oneof![199 => Just(0u32), 1 => proptest::sample::select(vec![65_534u32, 65_535, 65_536, 65_537, 70_000])];
+        (c04_palette(), len, gen::any_cfg(), needle_mode4(), far)
+            .prop_flat_map(|(pal, n, cfg, mode, far)| (Just(pal), proptest::collection::vec(any::<u16>(), n..=n), Just(cfg), Just(mode), Just(far)))
+            .prop_map(|(pal, sels, mut cfg, mode, far)| {
                 cfg.prefer_prefix = false;
                 let hay = text_from(&pal, &sels);
                 let needle = derive_needle(&hay, &pal, cfg, &mode);
-                MCase { hay: Text::plain(hay), needle: Text::plain(needle), cfg, prior: vec![], cap_mode: 2 }
+                let hay = if far > 0 && hay.len() <= 24 { Text { head: vec![], motif: vec!['q'], tile_to: far, tail: hay } } else { Text::plain(hay) };
+                MCase { hay, needle: Text::plain(needle), cfg, prior: vec![], cap_mode: 2 }
             })
             .boxed()
     }
@@ -60,9 +63,24 @@ impl Check for C04 {
         let mut out = Outcome::default();
         let mut cfg = case.cfg;
         cfg.prefer_prefix = false;
-        let hay = case.hay.expand();
+        let full = case.hay.expand();
         let needle = case.needle.expand();
-        if needle.is_empty() || hay.len() > 200 || !needle.iter().all(|&c| is_fixed(c, cfg)) {
+        // a small haystack behind 64k+ filler characters that no needle character matches: every alignment lies
+        // in the tail, so the references are evaluated on the tail (plus one filler character in front of it,
+        // which fixes the bonus of the first tail character); the matcher sees the whole haystack
+        let hay = if full.len() > 200 {
+            let t = case.hay.tail.len();
+            let ok = case.hay.head.is_empty() && case.hay.motif.len() == 1 && case.hay.tile_to >= 60_000 && t <= 60 && !needle.iter().any(|&c| c == norm(case.hay.motif[0], cfg));
+            if !ok {
+                out.label("skipped");
+                return out;
+            }
+            out.label("far-offset");
+            full[full.len() - t - 1..].to_vec()
+        } else {
+            full.clone()
+        };
+        if needle.is_empty() || !needle.iter().all(|&c| is_fixed(c, cfg)) {
             out.label("skipped");
             return out;
         }
@@ -101,14 +119,14 @@ impl Check for C04 {
             _ => {}
         }
 
-        let hs = Strs::new(hay.clone());
+        let hs = Strs::new(full.clone());
         let ns = Strs::new(needle.clone());
         let mut scores_seen: Vec<Option<u16>> = vec![];
         for hr in hs.reprs() {
             for nr in ns.reprs() {
                 out.sub_evals += 1;
                 let pair = format!("{}x{}", hr.name(), nr.name());
-                let ctx = || format!("({pair}) haystack={} needle={} cfg={cfg:?}", show(&hay), show(&needle));
+                let ctx = || format!("({pair}) haystack={}{} needle={} cfg={cfg:?}", if full.len() > hay.len() { format!("{} filler characters + ", full.len() + 1 - hay.len()) } else { String::new() }, show(&hay[(full.len() > hay.len()) as usize..]), show(&needle));
                 let run = |prefer: bool| {
                     guarded(|| {
                         let mut c = cfg;
